@@ -93,14 +93,15 @@ static volatile int tracking;		/* (volatile: clang knows malloc/free do not read
 #define NBLK 512
 static struct { void * p; size_t n; } blk[NBLK]; static int nblk;
 static unsigned long untracked_free;
+static volatile int oom;			/* while set, every allocation requested by library code is refused */
 static void (*registered_fn)(void); static int nregistered;
 static void blk_add(void * p, size_t n){ if (nblk >= NBLK) vf_engine_error("block table full"); blk[nblk].p = p; blk[nblk].n = n; nblk++; }
 static int blk_find(const void * p){ int i; for (i = 0; i < nblk; i++) if (blk[i].p == p) return i; return -1; }
 static void blk_del(void * p){ int i = blk_find(p); if (i < 0) { untracked_free++; return; } blk[i] = blk[--nblk]; }
-void * __wrap_malloc(size_t n){ void * p = __real_malloc(n); if (tracking && p) blk_add(p, n); return p; }
-void * __wrap_calloc(size_t a, size_t b){ void * p = __real_calloc(a, b); if (tracking && p) blk_add(p, a * b); return p; }
+void * __wrap_malloc(size_t n){ void * p; if (tracking && oom) return NULL; p = __real_malloc(n); if (tracking && p) blk_add(p, n); return p; }
+void * __wrap_calloc(size_t a, size_t b){ void * p; if (tracking && oom) return NULL; p = __real_calloc(a, b); if (tracking && p) blk_add(p, a * b); return p; }
 void __wrap_free(void * p){ if (tracking && p) blk_del(p); __real_free(p); }
-void * __wrap_realloc(void * p, size_t n){ void * q = __real_realloc(p, n); if (tracking && q) { if (p) blk_del(p); blk_add(q, n); } return q; }
+void * __wrap_realloc(void * p, size_t n){ void * q; if (tracking && oom) return NULL; q = __real_realloc(p, n); if (tracking && q) { if (p) blk_del(p); blk_add(q, n); } return q; }
 int __wrap_atexit(void (*fn)(void)){ if (tracking) { registered_fn = fn; nregistered++; return 0; } return __real_atexit(fn); }
 #define LIB(stmt) do { tracking = 1; stmt; tracking = 0; } while (0)
 static long blk_size(const void * p){ int i = blk_find(p); return i < 0 ? -1 : (long)blk[i].n; }
@@ -561,11 +562,11 @@ sp_succ(struct es * E, const uint8_t * s, size_t len, void * ctx)
 /* =====================  object pool  ===================== */
 struct obj { uint64_t a; uint32_t b; char c[20]; };
 MPOOL(t, struct obj, 2);
-enum { MP_INIT = 1, MP_MALLOC, MP_FREE, MP_FREENULL, MP_EXIT };
-static const char * const mp_kname[] = {"?", "init", "malloc", "free", "free(NULL)", "exit"};
+enum { MP_INIT = 1, MP_MALLOC, MP_FREE, MP_FREENULL, MP_EXIT, MP_FREE_OOM, MP_MALLOC_OOM };
+static const char * const mp_kname[] = {"?", "init", "malloc", "free", "free(NULL)", "exit", "free-while-allocator-fails", "malloc-while-allocator-fails"};
 #define MPOP(k, j) (((uint32_t)(k) << 8) | (uint32_t)(j))
-static const char * mp_opname(uint32_t op, char * b, size_t n){ unsigned k = op >> 8; if (k == MP_FREE) snprintf(b, n, "free(object %u)", op & 0xff); else snprintf(b, n, "%s", k <= MP_EXIT ? mp_kname[k] : "?"); return b; }
-static const char * mp_opclass(uint32_t op){ unsigned k = op >> 8; return k <= MP_EXIT ? mp_kname[k] : "?"; }
+static const char * mp_opname(uint32_t op, char * b, size_t n){ unsigned k = op >> 8; if (k == MP_FREE) snprintf(b, n, "free(object %u)", op & 0xff); else if (k == MP_FREE_OOM) snprintf(b, n, "free(object %u) while every allocation fails", op & 0xff); else snprintf(b, n, "%s", k <= MP_MALLOC_OOM ? mp_kname[k] : "?"); return b; }
+static const char * mp_opclass(uint32_t op){ unsigned k = op >> 8; return k <= MP_MALLOC_OOM ? mp_kname[k] : "?"; }
 /* state: stacklen(1) allocsize(1) nallocs(2) nempties(2) state(1) ninuse(1) */
 #define MPLEN 8
 static struct obj * inuse[32]; static int ninuse;
@@ -664,6 +665,20 @@ mp_edge(const uint8_t * s, size_t len, uint32_t op)
 		LIB(mpool_t_free(p));
 		break; }
 	case MP_FREENULL: LIB(mpool_t_free(NULL)); break;
+	case MP_FREE_OOM: {	/* freeing cannot fail: with a dead allocator the object is cached if there is room, else released */
+		struct obj * p = inuse[j];
+		inuse[j] = inuse[--ninuse]; if ((int)j < ninuse) memset(inuse[j], 0x10 + (int)j, sizeof(struct obj));
+		oom = 1; LIB(mpool_t_free(p)); oom = 0;
+		break; }
+	case MP_MALLOC_OOM: {	/* served from the cache if it holds an object, else NULL */
+		struct obj * p; int cached = s[0];
+		oom = 1; LIB(p = mpool_t_malloc()); oom = 0;
+		if (p == NULL) { if (cached) fail("oom-malloc", "malloc failed although %d objects were cached", cached); break; }
+		if (!cached) { fail("oom-malloc", "malloc returned an object although the cache was empty and the allocator refused"); break; }
+		for (i = 0; i < ninuse; i++) if (inuse[i] == p) { fail("handed-out-twice", "malloc returned object %d which is still in use", i); break; }
+		if (!edge_failed && blk_size(p) != (long)sizeof(struct obj)) fail("not-live", "malloc returned a pointer that is not a live allocation of the object size");
+		if (!edge_failed) { memset(p, 0x10 + ninuse, sizeof(struct obj)); inuse[ninuse++] = p; }
+		break; }
 	case MP_EXIT:
 		if (nregistered > 1) fail("atexit", "the pool registered its exit function %d times", nregistered);
 		if (registered_fn != NULL) LIB(registered_fn());
@@ -693,6 +708,8 @@ mp_succ(struct es * E, const uint8_t * s, size_t len, void * ctx)
 	if (esh_located(&S)) return;
 	if (s[7] < cur.cap && get16(s + 2) < (size_t)cur.B) { mp_edge(s, len, MPOP(MP_MALLOC, 0)); if (esh_located(&S)) return; }
 	for (j = 0; j < s[7]; j++) { mp_edge(s, len, MPOP(MP_FREE, j)); if (esh_located(&S)) return; }
+	for (j = 0; j < s[7]; j++) { mp_edge(s, len, MPOP(MP_FREE_OOM, j)); if (esh_located(&S)) return; }
+	if (s[7] < cur.cap && get16(s + 2) < (size_t)cur.B) { mp_edge(s, len, MPOP(MP_MALLOC_OOM, 0)); if (esh_located(&S)) return; }
 	mp_edge(s, len, MPOP(MP_FREENULL, 0)); if (esh_located(&S)) return;
 	mp_edge(s, len, MPOP(MP_EXIT, 0));
 }
